@@ -1559,7 +1559,10 @@ class Engine:
             elif self.contract is not None and self.contract(callee, fr.func):
                 results = self.call_by_contract(st, fr, bi, t, callee, args)
             else:
+                ev0 = st.events
                 results = self.exec_body(st, callee, args, depth + 1)
+                if len(results) > self.cfg.get('merge_cap', 24):
+                    results = self.merge_results(ev0, results, callee)
         else:
             ctx = CallCtx(self, st, fr, bi, t, fn, callee, args, depth)
             results = self.summ.apply(ctx)
@@ -1574,6 +1577,155 @@ class Engine:
                 continue
             out.append((s2, target, None))
         return out
+
+    # ---- explosion valve: join of the outcomes of a value-type helper ------------------------------
+    def merge_results(self, ev0, results, callee):
+        """A crate-local helper that is not a Screen operation (a method of a plain data type such as
+        CharOpts) returned very many abstract outcomes - typically n independent `if let Some(..) =
+        map.remove(k)` in a row give 2^n.  Its internal paths have all been explored (every obligation
+        inside it was examined); for the caller the outcomes are joined into one state: values that
+        differ become unknowns of their type (bounds: the hull), facts that are not common are dropped,
+        the Screen paths any outcome wrote are recorded as written.  Done only when what happened inside
+        is confined to such writes and to local data (no grid / listener / dirty-set operation), so that
+        no rule that reasons about the order or presence of events on a path loses anything."""
+        if callee.startswith(self.prog.LISTENER_IMPL) or callee.startswith('screen::Screen::'):
+            return results
+        tails = []
+        for (s, ret) in results:
+            tail = []
+            e = s.events
+            while e is not None and e is not ev0:
+                tail.append(e[0])
+                e = e[1]
+            if e is not ev0:
+                return results
+            for ev in tail:
+                k = ev[0]
+                if k in ('w', 'branch', 'note', 'loop-head'):
+                    continue
+                if len(ev) > 1 and isinstance(ev[1], tuple) and ev[1] and ev[1][0] == 'S':
+                    return results          # an operation on a Screen collection: order matters to the rules
+                if k in ('listener', 'call', 'localcall', 'send', 'decode'):
+                    return results
+            tails.append(tail)
+        states = [s for (s, r) in results]
+        base = states[0]
+        m = base.fork()
+        m.events = ev0
+        # numeric hulls are taken in each outcome's own zone
+        fresh = []
+
+        def join(vals):
+            k0 = vals[0].key()
+            if all(v.key() == k0 for v in vals[1:]):
+                return vals[0]
+            t0 = type(vals[0])
+            if not all(type(v) is t0 for v in vals):
+                return OpaqueV(getattr(vals[0], 'ty', '?'), next(_uid))
+            if t0 is StructV and all(v.ty == vals[0].ty for v in vals):
+                names = set(vals[0].fields)
+                for v in vals[1:]:
+                    names &= set(v.fields)
+                prov = vals[0].prov if all(v.prov == vals[0].prov for v in vals) else None
+                return StructV(vals[0].ty, {n: join([v.fields[n] for v in vals]) for n in sorted(names)}, prov)
+            if t0 is BoolV:
+                return BoolV(None)
+            if t0 is NumV:
+                lo = min(self.bounds(s, v)[0] for s, v in zip(states, vals))
+                hi = max(self.bounds(s, v)[1] for s, v in zip(states, vals))
+                sym = fresh_sym('join')
+                fresh.append((sym, lo, hi))
+                return NumV(sym, 0, vals[0].ty)
+            if t0 is StrV:
+                alts = []
+                for v in vals:
+                    if v.key() not in [a.key() for a in alts]:
+                        alts.append(v)
+                return StrV(None, oid=next(_uid), prov=('either', tuple(alts[:12])))
+            if t0 is EnumV and all(v.ty == vals[0].ty for v in vals):
+                tags = set()
+                for v in vals:
+                    tags |= set(v.tags)
+                pl = {}
+                for tg in tags:
+                    ps = [v.payload[tg] for v in vals if tg in v.tags and tg in v.payload]
+                    if ps:
+                        pl[tg] = join(ps) if len(ps) == len([v for v in vals if tg in v.tags]) else ps[0]
+                return EnumV(vals[0].ty, tags, pl, vals[0].names)
+            if t0 is CharV:
+                return CharV(None, next(_uid))
+            if t0 is CollV:
+                return vals[0].evolve(known=None, length=None, ver=max(v.ver for v in vals) + 1)
+            return OpaqueV(getattr(vals[0], 'ty', '?'), next(_uid))
+
+        keys = set(base.store)
+        for s in states[1:]:
+            keys &= set(s.store)
+        m.store = {k: join([s.store[k] for s in states]) for k in keys}
+        # facts common to all outcomes
+        vn = {}
+        for k, v in base.vn.items():
+            kk = v.key() if isinstance(v, V) else None
+            same = True
+            for s in states[1:]:
+                if k not in s.vn:
+                    same = False
+                    break
+                w = s.vn[k]
+                if isinstance(v, V):
+                    if not (isinstance(w, V) and w.key() == kk):
+                        same = False
+                        break
+                else:
+                    try:
+                        if w != v:
+                            same = False
+                            break
+                    except Exception:
+                        same = False
+                        break
+            if same:
+                vn[k] = v
+        m.vn = vn
+        # zone: the weakest of the outcomes' constraints
+        z = Zone()
+        z.syms = set(base.zone.syms)
+        for (a, b), c in base.zone.d.items():
+            cc = c
+            for s in states[1:]:
+                x = s.zone.d.get((a, b), INF)
+                if x == INF:
+                    cc = INF
+                    break
+                if x > cc:
+                    cc = x
+            if cc != INF:
+                z.d[(a, b)] = cc
+        m.zone = z
+        for (sym, lo, hi) in fresh:
+            if lo != -INF:
+                m.zone.add(Z, sym, -lo)
+            if hi != INF:
+                m.zone.add(sym, Z, hi)
+        m.steps = max(s.steps for s in states)
+        # what any outcome wrote on the Screen is written (by the joined value)
+        written = []
+        for tail in tails:
+            for ev in tail:
+                if ev[0] == 'w' and ev[1] not in written:
+                    written.append(ev[1])
+        m.log(('merged', callee, len(results)))
+        for pth in written:
+            try:
+                elems = tuple(('f', x, None) if isinstance(x, str) else x for x in pth)
+                v = self.read(m, (S_ROOT, elems))
+            except Exception:
+                v = OpaqueV('?', next(_uid))
+            m.log(('w', pth, v))
+        rets = [r for (s, r) in results]
+        ret = join(rets) if all(isinstance(r, V) for r in rets) else rets[0]
+        self.merged_calls = getattr(self, 'merged_calls', 0) + 1
+        return [(m, ret)]
 
     def call_by_contract(self, st, fr, bi, t, callee, args):
         """modular treatment of a call to a public Screen mutator: INV and the argument domain
